@@ -103,7 +103,15 @@ func (e *typEnv) modelOf(uuid string, row rm.Row) model.Model {
 	if row == nil {
 		return nil
 	}
-	or := sys.ToOvsRow(e.t, row)
+	// as in the database: a column holding its default is not written into the model (its map/slice/pointer stays nil)
+	nd := rm.Row{}
+	for cn, v := range row {
+		if c := e.t.Cols[cn]; c != nil && v.Equal(c.Default()) {
+			continue
+		}
+		nd[cn] = v
+	}
+	or := sys.ToOvsRow(e.t, nd)
 	m, err := model.CreateModel(e.dbm, "T", &or, uuid)
 	if err != nil {
 		panic(err)
